@@ -113,10 +113,11 @@ static std::string start_service(config const &c)
 	v["http"]["timeout"]=10;
 	v["file_server"]["enable"]= c.async!=2;
 	v["file_server"]["document_root"]=c.root;
-	v["file_server"]["listing"]=c.list;
-	v["file_server"]["check_symlink"]=c.sym;
+	// values equal to the documented defaults are left out, so that the constructor's own defaults are what runs
+	if(c.list) v["file_server"]["listing"]=c.list;
+	if(!c.sym) v["file_server"]["check_symlink"]=c.sym;
 	v["file_server"]["async"]= c.async==1;
-	v["file_server"]["index"]=c.index;
+	if(c.index!="index.html") v["file_server"]["index"]=c.index;
 	v["logging"]["level"]="error";
 	for(size_t i=0;i<c.alias.size();i++) {
 		// the constructor strips one trailing '/': add one so that the instance stores exactly c.alias[i].first
